@@ -3,7 +3,7 @@
     and serialising interpreters and ProofExp.modus_ponens run the same code).  Inner [None] = AssertionError.
     The documented rule is evaluated on full expansions.  Partial-correctness form over the fuel. *)
 From Coq Require Import NArith List Bool.
-From Pi2 Require Import ML.Syntax ML.Subst Py.Pattern Py.PatFacts Py.ExpandFacts Py.RulesFacts Py.Witness.
+From Pi2 Require Import ML.Syntax ML.Subst Py.Pattern Py.PatFacts Py.ExpandFacts Py.RulesFacts Py.Termination Py.Total Py.Witness.
 Import ListNotations.
 Open Scope N_scope.
 
@@ -32,6 +32,25 @@ Theorem C07_inst_agrees_with_checker : forall f, f_mv_keep_subst f = true ->
   wf_meta p = true -> inst g p vars plugs = Some q -> p_inst' f p (zipd vars plugs) = q.
 Proof. exact inst_checker_py. Qed.
 Print Assumptions C07_inst_agrees_with_checker.
+
+(** total correctness: with fuel beyond the structural measure [dm] of the premises each rule answers
+    (conclusion or AssertionError), exactly as the documented rule prescribes *)
+Theorem C07_mp_total : forall f, f_mv_keep_subst f = true -> f_inst_extend f = true ->
+  forall L R n, (dm L one + dm R one <= n)%nat ->
+  exists res, basic_mp f n L R = Some res /\
+    forall c', (exists c, res = Some c /\ expand f c = c') <-> expand f L = Imp (expand f R) c'.
+Proof. exact basic_mp_total. Qed.
+Theorem C07_gen_total : forall f, f_mv_keep_subst f = true -> f_inst_extend f = true -> f_fresh_simplify f = true ->
+  forall C x n, (dm C one <= n)%nat ->
+  exists res, basic_gen f n C x = Some res /\
+    forall c', (exists c, res = Some c /\ expand f c = c') <->
+               (exists l r, expand f C = Imp l r /\ e_fresh r x = true /\ c' = Imp (Ex x l) r).
+Proof. exact basic_gen_total. Qed.
+Theorem C07_inst_total : forall f, f_mv_keep_subst f = true -> f_inst_extend f = true ->
+  forall C d n, (dm C (E d) <= n)%nat ->
+  exists c, basic_inst f n C d = Some c /\ expand f c = p_inst f (expand f C) (expand_delta f d).
+Proof. exact basic_inst_total. Qed.
+Print Assumptions C07_gen_total.
 
 (** ---- non-vacuity ---- *)
 Example C07_ex_mp : basic_mp flags_sound 30 (PImp (neg_p (PEVar 1)) (PEVar 2)) (PImp (PEVar 1) bot_p) = Some (Some (PEVar 2)).
